@@ -1362,6 +1362,13 @@ class Compiler:
 
             def _neg(fr):
                 v = op(fr)
+                if isinstance(v, FloatVal):
+                    if v.bits is None:
+                        raise Unsupported('negation of a float known only by its text')
+                    w = 32 if v.ty == 'f32' else 64
+                    r = FloatVal(v.bits ^ (1 << (w - 1)), v.ty, v.src)
+                    r.ops = list(v.ops or []) + ['neg']
+                    return r
                 if isinstance(v, int):
                     return mask(-v, ii[0], ii[1]) if ii else -v
                 return -v
